@@ -867,7 +867,8 @@ def r3(ctx: Ctx) -> None:
              "a closure passed to with_s3_retry; permanent errors re-raise before any sleep; attempts are bounded", 12)
     for ci in [c2 for cname in ("S3StorageBackend", "S3RangeFile") for c2 in family(ctx, ctx.prog.cls(f"{SB}.{cname}"))]:
         for m in ci.methods.values():
-            if ctx.prog.is_transparent(m) and ctx.eff.call_sites.get(m.qname):
+            if ctx.prog.is_transparent(m) and any(m in ctx.cfg(o_).inlined_calls.values() for m2 in ci.methods.values() if m2 is not m
+                                                  for o_ in [m2] + list(m2.nested.values())):
                 continue  # a helper analysed in place: its request is judged in every scope that calls it
             fns = [m] + list(m.nested.values())
             for f in fns:
@@ -1093,8 +1094,10 @@ def r15_answers(ctx: Ctx, rid: str = "C20.R15") -> None:
     if ex is None:
         raise AnalysisError("S3StorageBackend.exists vanished")
     n_head = 0
-    for nf in op_scopes(ctx, ex):
-        if nf.parent is None and nf is not ex and ctx.prog.is_transparent(nf):
+    scopes_ = op_scopes(ctx, ex)
+    for nf in scopes_:
+        if nf.parent is None and nf is not ex and ctx.prog.is_transparent(nf) and any(
+                nf in ctx.cfg(o_).inlined_calls.values() for o_ in scopes_ if o_ is not nf):
             continue  # a helper analysed in place: judged inside the scope that calls it
         g = ctx.cfg(nf)
         boto = [c for c in g.calls() if c.callee is not None and c.callee.kind == "prim" and c.callee.name.startswith("boto.") and c.id in g.reachable()]
@@ -1403,6 +1406,26 @@ def _upper_bounds(ctx: Ctx, f: FunctionInfo, e: Optional[ast.AST], at: int, dept
         return [_lin_add(a, rx, -1) for a in ls] if rx is not None else []
     if isinstance(e, ast.Call) and isinstance(e.func, ast.Name) and e.func.id == "min" and e.args and not e.keywords:
         return [u for a in e.args for u in _upper_bounds(ctx, f, a, at, depth + 1)][:16]
+    if isinstance(e, ast.Call) and isinstance(e.func, ast.Name) and e.func.id == "max" and len(e.args) == 2 and not e.keywords \
+            and any(isinstance(a, ast.Constant) and a.value == 0 for a in e.args) and _REQ_NODE.get("node") is not None:
+        # `count = max(size - pos, 0)` with the request only reachable when `count != 0` (the `if count == 0: return` guard):
+        # there count is the other operand
+        other = next(a for a in e.args if not (isinstance(a, ast.Constant) and a.value == 0))
+        rn = _REQ_NODE["node"]
+        for pol, fe, fat in facts_at(ctx, f, rn):
+            if isinstance(fe, ast.Compare) and len(fe.ops) == 1 and isinstance(fe.comparators[0], ast.Constant) and fe.comparators[0].value == 0:
+                nonzero = (pol == "false" and isinstance(fe.ops[0], (ast.Eq, ast.LtE))) or (pol == "true" and isinstance(fe.ops[0], (ast.NotEq, ast.Gt)))
+                if nonzero:
+                    chain = [fe.left]
+                    seen_ = 0
+                    while chain and seen_ < 6:
+                        x_ = chain.pop()
+                        seen_ += 1
+                        if x_ is e:
+                            return _upper_bounds(ctx, f, other, at, depth + 1)
+                        if isinstance(x_, (ast.Name, ast.Call)):
+                            chain += [s_[0] for s_ in resolve_value(ctx, f, x_, fat) if s_[0] is not None and s_[0] is not x_]
+        return []
     if isinstance(e, (ast.Name, ast.Call)):
         srcs = resolve_value(ctx, f, e, at)
         if len(srcs) == 1 and srcs[0][0] is not None and srcs[0][0] is not e:
@@ -1410,6 +1433,9 @@ def _upper_bounds(ctx: Ctx, f: FunctionInfo, e: Optional[ast.AST], at: int, dept
     if isinstance(e, (ast.Name, ast.Attribute)):
         return [{norm_text(e): 1, "": 0}]
     return []
+
+
+_REQ_NODE: Dict[str, Optional[Node]] = {"node": None}
 
 
 def _exact(ctx: Ctx, f: FunctionInfo, e: Optional[ast.AST], at: int, depth: int = 0) -> Optional[Lin]:
@@ -1579,7 +1605,10 @@ def r6(ctx: Ctx) -> None:
             ok2 = ("min(" in txt and "_size" in txt and "- 1" in txt) or norm_text(last) == "self._size - 1"
             if not ok2:
                 # linear form: some upper bound of `last` minus (size - 1) is a constant <= 0
-                for u in _upper_bounds(ctx, m, last, c.id):
+                _REQ_NODE["node"] = c
+                ubs_ = _upper_bounds(ctx, m, last, c.id)
+                _REQ_NODE["node"] = None
+                for u in ubs_:
                     dlt = _lin_add(u, {"self._size": 1, "": -1}, -1)
                     if all(v == 0 for k, v in dlt.items() if k != "") and dlt.get("", 0) <= 0:
                         ok2 = True
